@@ -257,12 +257,12 @@ def pure_check(prop, tier, seed):
     from . import pure as P
     t0 = time.time()
     if prop == "C14":
-        res = [P.run_mode(prop, "cmp", tier, seed)]
+        res = [P.run_mode(prop, "cmp", tier, seed), P.run_mode(prop, "cmp", tier, seed + 1, profile="release")]
         rule = ("all pairs of byte strings of length <= 3 over {00,61,62,ff} (85^2) plus seeded longer pairs with common prefixes / non-UTF-8, each in "
                 "rotating representations of Bytes and BytesMut, evaluated by every PartialEq/PartialOrd/Ord/Hash/Borrow impl in both operand orders; "
                 "distinct = distinct (operands' prefix, lengths, representations)")
     else:
-        res = [P.run_mode(prop, "fmt", tier, seed), P.run_mode(prop, "serde", tier, seed)]
+        res = [P.run_mode(prop, "fmt", tier, seed), P.run_mode(prop, "fmt", tier, seed + 1, profile="release"), P.run_mode(prop, "serde", tier, seed)]
         rule = ("all 256 single bytes, all pairs over a boundary alphabet (quick) or all 65536 pairs (thorough), seeded longer strings, in rotating "
                 "representations: Debug / {:x} / {:X} output decoded by the literal grammar of spec/ByteLit.tla; serde: Serialize and every Visitor "
                 "entry point incl. sequences with no / exact / wrong size hints around the 4096 cap")
@@ -329,6 +329,19 @@ def config_check(prop, tier, seed):
     ca = K.run_and_validate("C16_cur_debug", progs, profile="debug")
     cb = K.run_and_validate("C16_cur_release", progs, profile="release")
     comps.append(G.compare("C16_cur_release_vs_debug", ca["trace"], cb["trace"]))
+    # the same for the typed writers (debug assertions, overflow checks and alignment checks exist in one profile only)
+    putters = [m for m in names if m.startswith("put_")]
+    wprogs, _ = K.generate("C16_putters", "mut", 1, 2, 1, [0, 1, 9], ["put"], putters, list(range(0, 9)), 200 if q else 20, seed)
+    wprogs = pick(wprogs, 3000 if q else 30000, seed)
+    wa = K.run_and_validate("C16_put_debug", wprogs, profile="debug")
+    wb = K.run_and_validate("C16_put_release", wprogs, profile="release")
+    comps.append(G.compare("C16_put_release_vs_debug", wa["trace"], wb["trace"]))
+    # pure functions (formatting, comparisons): debug vs release
+    from . import pure as P
+    for mode in ("fmt", "cmp"):
+        pa = P.run_mode("C16", mode, tier, seed, profile="debug")
+        pb = P.run_mode("C16", mode, tier, seed, profile="release")
+        comps.append(G.compare("C16_%s_release_vs_debug" % mode, pa["trace"], pb["trace"]))
     # cursor / sink programs over the surface that exists without std (no reader / writer / chunks_vectored / io::Cursor):
     # the crate built with its default features vs --no-default-features (std-only method overrides, cfg-gated paths)
     STD_ONLY = ('"cursor"', '"read"', '"write"', '"fill_buf"', '"consume"', '"chunks_vectored"')
